@@ -363,6 +363,11 @@ func (r *WordRenderer) renderListItem(node *ast.ListItem) (ast.WalkStatus, error
 			// 嵌套列表：各项成为自己的段落，而不是并进上一级列表项的文字里
 			r.renderList(n)
 		default:
+			// 列表项里的其他块（代码块、引用、表格、公式……）按各自的方式渲染，
+			// 否则代码块的内容会整个丢失、引用里的格式会被抹平
+			if r.renderNestedBlock(n) {
+				continue
+			}
 			if text := r.extractTextContent(n); text != "" {
 				r.doc.AddParagraph(indent + text)
 			}
@@ -370,6 +375,36 @@ func (r *WordRenderer) renderListItem(node *ast.ListItem) (ast.WalkStatus, error
 	}
 
 	return ast.WalkSkipChildren, nil
+}
+
+// renderNestedBlock 渲染嵌套在列表项或引用块里的块级节点；不认识的节点返回 false，由调用者按文本处理
+func (r *WordRenderer) renderNestedBlock(node ast.Node) bool {
+	switch n := node.(type) {
+	case *ast.FencedCodeBlock:
+		r.renderCodeBlock(n)
+	case *ast.CodeBlock:
+		r.renderCodeBlock(n)
+	case *ast.Blockquote:
+		r.renderBlockquote(n)
+	case *ast.List:
+		r.renderList(n)
+	case *ast.Heading:
+		r.renderHeading(n)
+	case *ast.ThematicBreak:
+		r.renderThematicBreak(n)
+	case *extast.Table:
+		if !r.opts.EnableTables {
+			return false
+		}
+		r.renderTable(n)
+	default:
+		if r.opts.EnableMath && node.Kind() == mathjax.KindMathBlock {
+			r.renderMathBlock(node)
+			return true
+		}
+		return false
+	}
+	return true
 }
 
 // renderBlockquote 渲染引用块
@@ -384,6 +419,11 @@ func (r *WordRenderer) renderBlockquote(node *ast.Blockquote) (ast.WalkStatus, e
 			r.renderInlineContent(n, para)
 			rendered = true
 		default:
+			// 引用里的其他块（列表、代码块、嵌套引用……）按各自的方式渲染
+			if r.renderNestedBlock(n) {
+				rendered = true
+				continue
+			}
 			if text := r.extractTextContent(n); text != "" {
 				para := r.doc.AddParagraph(text)
 				para.SetStyle("Quote")
